@@ -77,12 +77,13 @@ instance (d : Int) : Decidable (U d) := by unfold U; infer_instance
     number of legs of the triangle that are edges of the cube is even, because the cube is coloured
     and the triangle points into an uncoloured one -/
 theorem legs_even (dx dy dz sx sy sz : Int) (hsx : U sx) (hsy : U sy) (hsz : U sz)
-    (hp : (dx + dy + dz - (sx + sy + sz)) % 4 = 2) :
+    (hp : U dx → U dy → U dz → (dx + dy + dz - (sx + sy + sz)) % 4 = 2) :
     (ind (dx = sx ∧ U dy ∧ U dz) + ind (dy = sy ∧ U dx ∧ U dz) + ind (dz = sz ∧ U dx ∧ U dy)) % 2 = 0 := by
   by_cases hx : U dx
   · by_cases hy : U dy
     · by_cases hz : U dz
-      · unfold U at *
+      · have hp := hp hx hy hz
+        unfold U at *
         rcases hx with rfl | rfl <;> rcases hy with rfl | rfl <;> rcases hz with rfl | rfl <;>
           rcases hsx with rfl | rfl <;> rcases hsy with rfl | rfl <;> rcases hsz with rfl | rfl <;>
           first | (exfalso; omega) | decide
